@@ -38,9 +38,9 @@ def layout(prog, f):
     return out, res
 
 
-def install(eng, listing, pkg='github.com/bilibili/smgo/sm4', on_call=None):
+def install(eng, listing, pkg='github.com/bilibili/smgo/sm4', on_call=None, machine_cls=None):
     eng.asm_calls = []
-    eng.asm_machine = Machine(listing)
+    eng.asm_machine = (machine_cls or Machine)(listing)
     eng.asm_valid = {}     # heap object id -> number of leading bytes that belong to the caller-visible slice
 
     def make(fname, short):
